@@ -84,7 +84,9 @@ def replay(rec):
         worst = max(kindl.rel_err(r1[1], r2[1]), kindl.rel_err(r1[2], r2[2]))
     else:
         # special sources a data-dependent branch may single out: zero net flux, identically zero
-        for qs in (q1 - q1.mean(), np.zeros((ny, nx))):
+        qd = np.zeros((ny, nx))
+        qd.flat[0], qd.flat[-1] = 1.0, -1.0  # net flux exactly zero
+        for qs in (q1 - q1.mean(), np.zeros((ny, nx)), qd):
             g, cz0, fz0 = kindl.real_solve(sc, qs, srf_bg_conc=0.0, **kw)
             g, cz1, fz1 = kindl.real_solve(sc, qs, srf_bg_conc=c1, **kw)
             worst = max(worst, float(np.abs((np.asarray(cz1) - np.asarray(cz0)) - c1).max()) / abs(c1), kindl.rel_err(fz1, fz0) if np.abs(fz0).max() > 0 else float(np.abs(fz1).max()))
@@ -94,7 +96,7 @@ def replay(rec):
         g, ca, fa = kindl.real_solve(sc, q1, srf_bg_conc=c1, **kw)
         g, cb, fb = kindl.real_solve(sc, q2, srf_bg_conc=c2, **kw)
         g, cc, fc = kindl.real_solve(sc, a * q1 + b * q2, srf_bg_conc=a * c1 + b * c2, **kw)
-        worst = max(kindl.rel_err(cc, a * ca + b * cb), kindl.rel_err(fc, a * fa + b * fb))
+        worst = max(worst, kindl.rel_err(cc, a * ca + b * cb), kindl.rel_err(fc, a * fa + b * fb))
         g, c0, f0 = kindl.real_solve(sc, q1, srf_bg_conc=0.0, **kw)
         worst = max(worst, kindl.rel_err(fa, f0), float(np.abs((ca - c0) - c1).max()) / max(abs(c1), np.abs(c0).max(), 1e-300))
     out.update(max_rel_discrepancy=worst, tolerance=tol, confirmed=bool(worst > tol))
@@ -137,5 +139,6 @@ def main(run):
                       outside="grids > 8x8, > 9 layers, other profile families, rounding")
     cex = run.pmap(worker, scs)
     kindl.handle_cex(run, PID, cex, replay)
-    pick = [s for s in scs if len(s["levels"]) > 1 and not s.get("analytic")][:2]
+    cscs = kindl.base_scenarios("quick", 0)
+    pick = [s for s in cscs if len(s["levels"]) > 1][:2]
     kindl.run_canaries(run, "vf.props.C04:canary_probe", CANARIES, pick)
